@@ -30,6 +30,15 @@ type puLoop struct {
 	brk, cont puK
 }
 
+func puHasBind(lines []string) bool {
+	for _, l := range lines {
+		if strings.Contains(l, ">>=") {
+			return true
+		}
+	}
+	return false
+}
+
 func puIndent(lines []string) []string {
 	out := make([]string, len(lines))
 	for i, l := range lines {
@@ -743,15 +752,23 @@ func (c *puFn) branch(cond string, a, b []ast.Stmt, next puK, lp *puLoop) ([]str
 			return next()
 		}
 		t := c.fresh()
+		// branches in which nothing can fail join as a value even inside a function that can fail
+		total := !c.monadic
+		if c.monadic && !puHasBind(la) && !puHasBind(lb) &&
+			strings.HasPrefix(la[len(la)-1], ".ok ") && strings.HasPrefix(lb[len(lb)-1], ".ok ") {
+			la[len(la)-1] = strings.TrimPrefix(la[len(la)-1], ".ok ")
+			lb[len(lb)-1] = strings.TrimPrefix(lb[len(lb)-1], ".ok ")
+			total = true
+		}
 		open := "(if " + cond + " then"
-		if !c.monadic {
+		if total {
 			open = "let " + t + " := " + open
 		}
 		lines = append(lines, open)
 		lines = append(lines, puIndent(la)...)
 		lines = append(lines, "else")
 		lb = puIndent(lb)
-		if c.monadic {
+		if !total {
 			lb[len(lb)-1] += ") >>= fun " + t + " =>"
 		} else {
 			lb[len(lb)-1] += ")"
